@@ -120,6 +120,107 @@ func genCache() {
 		}
 		return res
 	}
+	// cachePackage: the destination of every advertise, in source order (the writer's order), and whether the
+	// signature advertise is guarded by `exp.SignatureFile != ""`
+	var advOrder []string
+	fi := load("pkg/apk/apk/implementation.go")
+	if fd := fi.fn("APK.cachePackage"); fd != nil {
+		var walk func(n ast.Node, guard string)
+		walk = func(n ast.Node, guard string) {
+			ast.Inspect(n, func(m ast.Node) bool {
+				if is, ok := m.(*ast.IfStmt); ok && m != n {
+					if is.Init != nil {
+						walk(is.Init, guard)
+					}
+					walk(is.Body, guard+"["+fi.src(is.Cond)+"]")
+					if is.Else != nil {
+						walk(is.Else, guard)
+					}
+					return false
+				}
+				if ce, ok := m.(*ast.CallExpr); ok && fi.src(ce.Fun) == "paths.AdvertiseCachedFile" && len(ce.Args) == 2 {
+					advOrder = append(advOrder, guard+fi.src(ce.Args[1]))
+				}
+				return true
+			})
+		}
+		walk(fd.Body, "")
+	}
+	if len(advOrder) == 0 {
+		problem("implementation.go: no AdvertiseCachedFile call found in cachePackage")
+	}
+	l.defStrList("cache_cachePackageAdvOrder", advOrder)
+	// cachedPackage: the probes (os.Stat) in source order (the reader's order), each with what a failure
+	// means: `required` = `if err != nil { return nil, err }` (a miss), `optional` = `if err == nil { … }`
+	var probes []string
+	if fd := fi.fn("APK.cachedPackage"); fd != nil {
+		stmts := fd.Body.List
+		for i, st := range stmts {
+			if es, ok := st.(*ast.ExprStmt); ok {
+				if ce, ok := es.X.(*ast.CallExpr); ok && fi.src(ce.Fun) == "verifhook.Point" {
+					probes = append(probes, "Point")
+				}
+			}
+			as, ok := st.(*ast.AssignStmt)
+			if !ok || len(as.Rhs) != 1 {
+				continue
+			}
+			ce, ok := as.Rhs[0].(*ast.CallExpr)
+			if !ok || fi.src(ce.Fun) != "os.Stat" || len(ce.Args) != 1 {
+				continue
+			}
+			kind := "unknown"
+			if i+1 < len(stmts) {
+				if is, ok := stmts[i+1].(*ast.IfStmt); ok {
+					switch fi.src(is.Cond) {
+					case "err != nil":
+						if len(is.Body.List) == 1 {
+							if _, ok := is.Body.List[0].(*ast.ReturnStmt); ok {
+								kind = "required"
+							}
+						}
+					case "err == nil":
+						kind = "optional"
+					}
+				}
+			}
+			probes = append(probes, fi.src(ce.Args[0])+":"+kind)
+		}
+	}
+	if len(probes) == 0 {
+		problem("implementation.go: no os.Stat probe found in cachedPackage")
+	}
+	l.defStrList("cache_cachedPackageProbes", probes)
+	// ExpandApk: which stream index is which section (3 streams: signed)
+	var streamIdx []string
+	fx := load("pkg/apk/expandapk/expandapk.go")
+	if fd := fx.fn("ExpandApk"); fd != nil {
+		ast.Inspect(fd.Body, func(n ast.Node) bool {
+			ss, ok := n.(*ast.SwitchStmt)
+			if !ok || fx.src(ss.Tag) != "numGzipStreams" {
+				return true
+			}
+			for _, c := range ss.Body.List {
+				cc := c.(*ast.CaseClause)
+				lab := "default"
+				if len(cc.List) > 0 {
+					lab = fx.src(cc.List[0])
+				}
+				var as []string
+				for _, st := range cc.Body {
+					if a, ok := st.(*ast.AssignStmt); ok {
+						as = append(as, fx.src(a.Lhs[0])+"="+fx.src(a.Rhs[0]))
+					}
+				}
+				streamIdx = append(streamIdx, lab+":"+strings.Join(as, ","))
+			}
+			return false
+		})
+	}
+	if len(streamIdx) == 0 {
+		problem("expandapk.go: switch numGzipStreams not found in ExpandApk")
+	}
+	l.defStrList("cache_expandStreamIndex", streamIdx)
 	l.defStr("cache_indexTempPattern", pat("pkg/apk/apk/cache.go", "cacheTransport.retrieveAndSaveFile", "os.CreateTemp", 1))
 	l.defStr("cache_expandDirPattern", pat("pkg/apk/expandapk/expandapk.go", "ExpandApk", "os.MkdirTemp", 1))
 	l.write()
